@@ -221,7 +221,7 @@ def load_known():
 
 def viol_key(v):
     m = re.search(r'key=(\S+)', v)
-    return m.group(1) if m else 'h' + hashlib.sha1(v.encode()).hexdigest()[:12]
+    return m.group(1) if m else 'unlisted:' + v.split(' ', 1)[0]
 
 
 def write_replay(prop, kind, payload):
